@@ -214,6 +214,31 @@ def oracle_purity(case, ctx):
                 discs.append(D("apply_not_repeatable:%s.predict_with_remembered_horizon" % type(est).__name__,
                                "%s: predict(%s) returned %s, predict() right after it %s" % (desc, hz, _short(a), _short(b))))
                 break
+    if case["family"] == "forecaster" and not discs:
+        # update is a fitting-type call too: neither the series once given to fit nor the batch
+        # given to update is changed by it - for a batch of new time points and for a batch
+        # that revises time points already known (first update after fit, and a later one)
+        y = S["data"]["y"]
+        c = int(y.index[-1])
+        for first_batch in ("revision", "new"):
+            e2 = S["make"]()
+            if isinstance(sut(S["fit"], e2), Raised):
+                break
+            batches = {"revision": y.iloc[-4:-1] * 1.5 + 1.0,
+                       "new": gen.build_series([float(y.iloc[-1]) + 0.25 * j for j in range(1, 4)], c + 1, case["index_kind"])}
+            for bname in ([first_batch] + [b for b in batches if b != first_batch]):
+                batch = batches[bname]
+                b0 = snap(batch)
+                for upar in (False, True):
+                    sut(e2.update, batch, None, upar)
+                    if not snap_eq(before["y"], snap(y)):
+                        discs.append(D("update_modifies_series_given_to_fit:%s" % type(e2).__name__,
+                                       "%s: update(%s batch, update_params=%s) changed the series that was passed to fit" % (desc, bname, upar)))
+                        return discs
+                    if not snap_eq(b0, snap(batch)):
+                        discs.append(D("update_modifies_caller_data:%s" % type(e2).__name__, "%s: update changed the %s batch it was given" % (desc, bname)))
+                        return discs
+            ctx.label("update_purity")
     return discs
 
 
